@@ -284,6 +284,42 @@ def hot_reload_case():
     return out
 
 
+def real_logger_case():
+    """the proxy's own bookkeeping with the real loggers (a WrappingMessageLogger over FilteringMessageLoggers, as the GUI sets it up),
+    whose filters may or may not match: logging a message leaves it as sendable as it was. Returns violation strings."""
+    from hippolyzer.lib.base.message.message import Message, Block
+    from hippolyzer.lib.base.network.transport import Direction
+    from hippolyzer.lib.base.message.udpdeserializer import UDPMessageDeserializer
+    from hippolyzer.lib.proxy.message_logger import WrappingMessageLogger, FilteringMessageLogger
+    out = []
+    for filt in ("Nope", "*", "StartPingCheck"):
+        h = Harness(with_logger=False)
+        try:
+            wrap = WrappingMessageLogger()
+            fl = FilteringMessageLogger()
+            fl.set_filter(filt)
+            wrap.loggers.append(fl)
+            h.session_manager.message_logger = wrap
+            h.open_circuits()
+            de = UDPMessageDeserializer()
+            msgs = [Message("StartPingCheck", Block("PingID", PingID=1, OldestUnacked=0), packet_id=3, direction=Direction.OUT),
+                    Message("AgentDataUpdate", Block("AgentData", AgentID=h.session.agent_id, FirstName="a", LastName="b", GroupTitle="", ActiveGroupID=h.session.agent_id,
+                                                     GroupPowers=0, GroupName=""), packet_id=4, direction=Direction.IN),
+                    Message("CompletePingCheck", Block("PingID", PingID=1), packet_id=5, direction=Direction.IN)]
+            for m in msgs:
+                data, src = h.datagram(m)
+                exc, sent = h.feed(data, src)
+                n = sum(1 for _, _, p in sent if de.deserialize(p.data).name == m.name)
+                if exc is not None or n != 1:
+                    out.append(f"with the real message loggers installed (filter {filt!r}) an unclaimed {m.name} was put on the wire {n} times "
+                               f"(exception {exc!r}); expected exactly once")
+        except Exception as e:  # noqa
+            out.append(f"real-logger scenario: harness error {type(e).__name__}: {e}")
+        finally:
+            h.close()
+    return out
+
+
 def bounded_addons(reg, tier, seed):
     rng = random.Random(seed)
     evals, failures, seen, samples = 0, [], set(), []
@@ -320,6 +356,10 @@ def bounded_addons(reg, tier, seed):
     for msg in hot_reload_case()[:2]:
         failures.append({"key": "addons/hot-reload", "clause": msg, "input": {"scenario": "addon script hot-reloading a helper module; helper edited between messages"},
                          "observed": msg})
+    evals += 9
+    seen.add(("real-loggers",))
+    for msg in real_logger_case()[:2]:
+        failures.append({"key": "addons/real-loggers", "clause": msg, "input": {"scenario": "WrappingMessageLogger over a FilteringMessageLogger"}, "observed": msg})
     n, ov = ownership_sequences(4)
     evals += n
     for msg in ov[:3]:
